@@ -288,12 +288,16 @@ package protocol
 //@ // the local side itself sends (e.g. a reflected copy of its own data) is refused
 //@ // before it can touch the session. No input makes it panic (C10).
 //@ func (s *Session) input(seg *segment) (err error)
-//@   property C04
+//@   property C04 C10
 //@   mode int
 //@   noframe
 //@   wraps_signed
 //@   partial
 //@   posts_only
 //@   requires s != nil && wfSegMeta(seg)
+//@   // every cipher block the underlays attach to a segment or a session carries the
+//@   // name of the user that authenticated it
+//@   requires seg.block != nil ==> blockUser(seg.block) != ""
+//@   requires s.block.v != nil ==> *asptr(s.block.v, *cipher.BlockCipher) != nil && blockUser(*asptr(s.block.v, *cipher.BlockCipher)) != ""
 //@   ensures s.isClient && !(protoOf(seg) == 3 || protoOf(seg) == 7 || protoOf(seg) == 11 || protoOf(seg) == 9 || protoOf(seg) == 4 || protoOf(seg) == 5) ==> err != nil && s.nextRecv.v == old(s.nextRecv.v) && ghost(qn) == old(ghost(qn))
 //@   ensures !s.isClient && !(protoOf(seg) == 2 || protoOf(seg) == 6 || protoOf(seg) == 10 || protoOf(seg) == 8 || protoOf(seg) == 4 || protoOf(seg) == 5) ==> err != nil && s.nextRecv.v == old(s.nextRecv.v) && ghost(qn) == old(ghost(qn))
